@@ -1,10 +1,14 @@
 from cfg.common import FLOAT_ASSUMPTION, NOTE_COMMON
+from cfg.train_kernels_pre import (regen as regen_train_kernels, TRAIN_KERNEL_THEOREMS_FOR, TRAIN_KERNEL_TRUSTED,
+                                   TRAIN_KERNEL_ASSUMPTION)
 
 PROP = {
     'anchors': [('train/set_speed_train_sim.rs', 'solve_step'), ('train/set_speed_train_sim.rs', 'solve_required_pwr'), ('train/speed_limit_train_sim.rs', 'solve_step'), ('train/speed_limit_train_sim.rs', 'solve_required_pwr'), ('train/speed_limit_train_sim.rs', 'get_scaling_factor'), ('train/speed_limit_train_sim.rs', 'get_energy_fuel'), ('train/speed_limit_train_sim.rs', 'get_net_energy_res'), ('train/speed_limit_train_sim.rs', 'get_kilometers'), ('train/speed_limit_train_sim.rs', 'get_megagram_kilometers'), ('consist/consist_model.rs', 'solve_energy_consumption')],
     'blocks': ['train'],
-    'proof_modules': ['C11'],
-    'namespaces': ['Altrios.Proofs.C11'],
+    'pre': [regen_train_kernels],
+    'trusted_extra': [TRAIN_KERNEL_TRUSTED],
+    'proof_modules': ['C11', 'TrainKernels'],
+    'namespaces': ['Altrios.Proofs.C11', 'Altrios.Proofs.TrainKernels'],
     'required_theorems': [
         'Altrios.Proofs.C11.C11_inner_call',
         'Altrios.Proofs.C11.C11_ss_power',
@@ -18,18 +22,18 @@ PROP = {
         'Altrios.Proofs.C11.C11_ss_closed',
         'Altrios.Proofs.C11.C11_sl_closed',
         'Altrios.Proofs.C11.C11_trip_outputs_run',
-    ],
+    ] + TRAIN_KERNEL_THEOREMS_FOR['C11'],
     'nontrivial_stats': ['train.ss.step_ok', 'train.sl.step_ok'],
     'rule': 'each evaluation is one whole real train-simulation step (ss_step / sl_step: train state + consist + every '
             'locomotive) or one of its parts, replayed through the composed Lean model; non-trivial = every accepted step',
     'assumptions': [FLOAT_ASSUMPTION,
-                    'per-unit share bounds inherit the forced hypothesis of C10 (non-negative published limits)'],
+                    'per-unit share bounds inherit the forced hypothesis of C10 (non-negative published limits)'] + [TRAIN_KERNEL_ASSUMPTION],
 }
 
 TEXT = {
     'design_ref': '§7.9',
     'note': NOTE_COMMON,
-    'technique': 'Lean 4 proof (composition of the C10/C01 theorems with the train step, induction over steps) + bit-exact correspondence',
+    'technique': 'Lean 4 proof (composition of the C10/C01 theorems with the train step, induction over steps) + bit-exact correspondence + translator tie (the straight-line train kernels are re-translated from the Rust text on every run and proved equal to the model)',
     'text': ('Kernel-checked composition of the C10 sum theorem and the C01 roll-ups with the train step: in every accepted set-speed and speed-limited step the consist is '
              "asked for exactly the train's wheel power with the same dt and reports delivering it = sum over locomotives (C11_ss_power, C11_sl_power); wheel energy and its "
              'positive / negative parts advance identically at train and consist level and as the sum over units (C11_*_energy); by induction from zero counters the totals are '
